@@ -112,13 +112,16 @@ func SendMissingStz(lastSent int, s Sender, uaq *stanza.UnAckQueue) error {
 	// stanzas sent on this session, so everything up to lastSent is acknowledged
 	first := uaq.Uslice[0]
 	uaq.PopN(lastSent - first.Id + 1)
-	if len(uaq.Uslice) > 0 {
+	// Take the non acknowledged stanzas out: re-sending them stores them again, with their new sequence
+	// numbers. The lock must not be held while sending, as Send and SendRaw take it to store the stanza.
+	unacked := uaq.PopN(len(uaq.Uslice))
+	uaq.RWMutex.Unlock()
+	if len(unacked) > 0 {
 		// Re-send non acknowledged stanzas
-		for _, elt := range uaq.PopN(len(uaq.Uslice)) {
+		for _, elt := range unacked {
 			eltStz := elt.(*stanza.UnAckedStz)
 			err := s.SendRaw(eltStz.Stz)
 			if err != nil {
-				uaq.RWMutex.Unlock()
 				return err
 			}
 
@@ -126,7 +129,6 @@ func SendMissingStz(lastSent int, s Sender, uaq *stanza.UnAckQueue) error {
 		// Ask for updates on stanzas we just sent to the entity. Not sure I should leave this. Maybe let users call ack again by themselves ?
 		s.Send(stanza.SMRequest{})
 	}
-	uaq.RWMutex.Unlock()
 	return nil
 }
 
